@@ -313,8 +313,8 @@ fn enumerate_base(master: u64, index: u64, r: &mut Rng) -> Scenario {
             OpKind::MakeCredential(s)
         };
         let mut op = plain_op(kind);
-        // one suspension before each store effect and in the user prompt
-        op.yields = vec![1, 0, 1, 1, 0, 1, 0];
+        // one suspension before (and sometimes after) each store effect and in the user prompt
+        op.yields = if r.bool() { vec![1, 0, 1, 1, 0, 1, 0] } else { vec![1, 1, 1, 1, 1, 1, 1, 1] };
         actor.ops.push(op);
         c.actors.push(actor);
     }
